@@ -155,7 +155,10 @@ func c16Record(tier string, seed int64, emit func(interface{})) {
 		rng.Shuffle(len(codes), func(a, b int) { codes[a], codes[b] = codes[b], codes[a] })
 		codes = codes[:rng.Intn(16)]
 		indent := []string{"                ", "\t", "\t\t", "    ", " \t"}[rng.Intn(5)]
-		for _, cch := range codes {
+		for ci, cch := range codes {
+			if ci > 0 && rng.Intn(5) == 0 { // suppliers laid out in groups: a blank line inside the table
+				lines = append(lines, []string{"", "   ", "\t"}[rng.Intn(3)])
+			}
 			lines = append(lines, indent+string(cch)+"        "+word(25, letters+" .,-&")+" ("+fmt.Sprint(1+rng.Intn(12))+"/"+fmt.Sprint(10+rng.Intn(12))+")")
 		}
 		lines = append(lines, "")
